@@ -599,13 +599,22 @@ def run_rmblock(case, ctx):
                     if buffered:
                         for cap in case["caps"]:
                             st.enter_context(signac.buffered(cap) if cap is not None else signac.buffered())
-                    for n, (wf, reuse) in enumerate(case["jobs"]):
+                    for n, ent in enumerate(case["jobs"]):
+                        wf, reuse = ent[0], ent[1]
+                        act = ent[2] if len(ent) > 2 else "remove"
                         j = p.open_job({"n": n})
                         for k, v in wf:
                             j.doc[k] = v
-                        j.remove()
+                        if act == "remove":
+                            j.remove()
+                        elif act == "clear":     # Job.clear(): document and files go, the job stays
+                            j.clear()
+                        else:                    # Job.reset()
+                            j.reset()
+                        if act != "remove" and dict(j.doc()) != {}:     # read back through the handle, in both runs
+                            res = "read after %s: %r" % (act, j.doc())
                         if reuse:
-                            j2 = p.open_job({"n": n})
+                            j2 = j if act != "remove" and n % 2 else p.open_job({"n": n})
                             for k, v in reuse:
                                 j2.doc[k] = v
                             if buffered and dict(j2.doc()) != dict(reuse):
@@ -616,6 +625,8 @@ def run_rmblock(case, ctx):
             for rel in _listing(d):
                 with open(os.path.join(d, rel)) as f:
                     files[rel] = f.read()
+                if os.path.basename(rel) == "signac_job_document.json" and files[rel].strip() == "{}":
+                    del files[rel]   # an empty document and no document file are the same document
             return res, files
         finally:
             _reset_buffer_state()
@@ -624,7 +635,7 @@ def run_rmblock(case, ctx):
     u, b = one(False), one(True)
     oracle = []
     if u != b:
-        oracle.append("remove() inside a buffered block: the buffered run ends with %s and leaves %s, the unbuffered run "
+        oracle.append("Job.remove() / clear() / reset() inside a buffered block: the buffered run ends with %s and leaves %s, the unbuffered run "
                       "ends with %s and leaves %s" % (b[0], json.dumps(b[1])[:300], u[0], json.dumps(u[1])[:300]))
     return {"model": [], "impl": [], "oracle": oracle, "tags": ["rmblock"], "key": "rmblock" + json.dumps(case, sort_keys=True)}
 
@@ -1117,7 +1128,7 @@ def rmblock_cases(rng, n):
         for _j in range(rng.choice([1, 1, 2])):
             wf = [[rng.choice(["x", "cfg", "a"]), rng.choice([1, {"q": [1, 2]}, "s"])] for _ in range(rng.choice([0, 1, 2]))]
             reuse = [[rng.choice(["y", "x"]), rng.choice([2, [3], None])]] if rng.random() < 0.6 else []
-            jobs.append([wf, reuse])
+            jobs.append([wf, reuse, rng.choice(["remove", "remove", "clear", "reset"])])
         # default capacity only: with a small capacity the document is flushed to disk inside the block and the
         # removal then belongs to the situations the pinned tree answers with BufferedError (see run_rmblock)
         yield {"rmblock": 1, "jobs": jobs, "caps": [None] + ([None] if rng.random() < 0.3 else [])}
